@@ -230,6 +230,16 @@ func (v *Verifier) evalModEntry(fr *Frame, text string, vars map[string]Val, st 
 		addLeaves("E:"+typeName(et), et, "", true)
 		return out
 	}
+	// objs(T): every field of every object of struct type T (coarse: objects owned by pools / caches)
+	if strings.HasPrefix(text, "objs(") && strings.HasSuffix(text, ")") {
+		ot := v.resolveType(pkg, strings.TrimSuffix(strings.TrimPrefix(text, "objs("), ")"))
+		ms := newModSet()
+		v.addObjComps(ms, ot)
+		for _, c := range ms.sorted() {
+			out = append(out, modEntry{comp: c, sort: ms.comps[c], ref: ""})
+		}
+		return out
+	}
 	// x.*  : all fields of the object
 	if strings.HasSuffix(text, ".*") {
 		e, err := parseSpec(strings.TrimSuffix(text, ".*"))
@@ -672,6 +682,9 @@ func (fr *Frame) runDeferred(st *State, reach Term) *State {
 	for k := len(fr.deferred) - 1; k >= 0; k-- {
 		d := fr.deferred[k]
 		if !d.Block().Dominates(fr.cur) {
+			if !blockReaches(d.Block(), fr.cur) {
+				continue // the defer statement is not executed on any path to this return
+			}
 			encFail("conditional defer not supported")
 		}
 		_, st = fr.doCall(d, d.Common(), st, reach)
@@ -807,4 +820,22 @@ func sortStrings(s []string) {
 			s[j], s[j-1] = s[j-1], s[j]
 		}
 	}
+}
+
+func blockReaches(from, to *ssa.BasicBlock) bool {
+	seen := map[*ssa.BasicBlock]bool{}
+	stack := []*ssa.BasicBlock{from}
+	for len(stack) > 0 {
+		b := stack[len(stack)-1]
+		stack = stack[:len(stack)-1]
+		if b == to {
+			return true
+		}
+		if seen[b] {
+			continue
+		}
+		seen[b] = true
+		stack = append(stack, b.Succs...)
+	}
+	return false
 }
